@@ -13,6 +13,7 @@ import (
 	"strings"
 	"testing"
 	"time"
+	"verif/c06"
 
 	hio "github.com/hprose/hprose-golang/v3/io"
 	"pgregory.net/rapid"
@@ -385,6 +386,38 @@ func TestEverySplit(t *testing.T) {
 			runCase(rt, "every-split", "TestEverySplit", typ, wire, simple, []int{c}, buf, sentinel)
 		}
 	})
+}
+
+// TestTokenStreaming: the whole token x destination matrix of C06 (every spelling of every scalar value into every
+// destination type, conversions included), at top level and as a list element, decoded from the byte slice and from
+// readers that fragment the stream in the worst ways: one byte per read, and one split at every offset.
+func TestTokenStreaming(t *testing.T) {
+	toks := c06.AllScalarTokens()
+	i := 0
+	for _, tok := range toks {
+		for _, d := range c06.Dests {
+			i++
+			if i%ev.S.NShards != ev.S.Shard {
+				continue
+			}
+			for _, simple := range []bool{true, false} {
+				if strings.Contains(tok.Wire, "r") && strings.HasPrefix(tok.Class, "list-with") && simple {
+					continue // a back-reference is not part of a simple-mode stream
+				}
+				for _, wrapped := range []bool{false, true} {
+					typ, wire := d, []byte(tok.At(0))
+					if wrapped {
+						typ, wire = reflect.SliceOf(d), []byte("a1{"+tok.At(1)+"}")
+					}
+					runCase(t, "token-streaming", "TestTokenStreaming", typ, wire, simple, []int{1}, 256, true)
+					for k := 1; k < len(wire)+1 && k < 80; k++ {
+						runCase(t, "token-streaming", "TestTokenStreaming", typ, wire, simple, []int{k, len(wire) + 16}, 256, true)
+					}
+				}
+			}
+		}
+	}
+	ev.S.Exhaustive("token-streaming", true)
 }
 
 // TestBoundaryStrings: strings and numbers placed so that they straddle the 256-byte buffer.
